@@ -111,8 +111,7 @@ class QueueModel:
             self.pulling.clear()
             self.waitingfor.clear()
             self.expect.clear()
-            # per-channel outcome counters are not part of the saved state
-            self.stats = {}
+            # (the per-channel outcome counters belong to the saved state: they must still add up after a restart)
             self.restarts += 1
         elif kind == "watchdog":
             # dropdead(): jobs whose drop-deadline has passed are forgotten; finished jobs without one get now + ttl
@@ -281,7 +280,7 @@ class QueueModel:
         for ch, c in got_c2s.items():
             n = sum(c.values())
             fin = self.nfinished.get(ch, 0)
-            if n != fin and not self.restarts:
+            if n != fin:
                 self.flag("stats-sum", "counters of %r add up to %d, finished jobs: %d" % (ch, n, fin))
 
     def on_raise(self, conn, name, etype, msg):
